@@ -40,7 +40,8 @@ META = {
         'ended_end', 'gen_empty_item', 'gen_data_inside_multi_statement_line', 'gen_read_in_loop',
         'gen_restore_to_line_without_data', 'gen_two_data_statements_on_a_line', 'gen_trapped', 'directed_cases',
         'gen_data_item_with_unclosed_quote', 'gen_line_ending_in_unclosed_string',
-        'gen_failed_read_then_resumed', 'gen_integer_overflow_planned', 'ref_read:overflow', 'ref_resume:next']},
+        'gen_failed_read_then_resumed', 'gen_integer_overflow_planned', 'ref_read:overflow', 'ref_resume:next',
+        'gen_decoy_data_in_remark', 'gen_decoy_data_in_string', 'gen_line_zero', 'gen_indented_lines']},
     'timeout': {'quick': 600, 'thorough': 7200},
 }
 
@@ -122,6 +123,14 @@ DIRECTED = [
     ('failed-read:out-of-data-then-restore-in-handler',
      ['10 ON ERROR GOTO 100', '20 DATA 1,2', '30 READ A,B', '35 READ C', '40 PRINT A;B;C:END', '100 PRINT ERR;ERL:RESTORE:RESUME'],
      b' 4  35 \r\n 1  2  1 \r\n'),
+    ('layout:data-after-blanks-and-tabs-and-on-line-zero',
+     ['0 DATA 5', '10   DATA 6', '20\tDATA 7', '30 PRINT "p" :   DATA 8', '40 READ A,B,C,D:PRINT A;B;C;D'], b'p\r\n 5  6  7  8 \r\n'),
+    ('layout:restore-to-indented-data-lines',
+     ['10 DATA 1', '20     DATA 2', '30 \t DATA 3', '40 RESTORE 20:READ A:RESTORE 30:READ B:RESTORE 25:READ C', '25  PRINT "p"',
+      '50 PRINT A;B;C'], b'p\r\n 2  3  3 \r\n'),
+    ('decoy:data-in-remarks-and-string-literals',
+     ['10 REM DATA 1:DATA 2', "20 PRINT \"DATA 3\" : ' DATA 4", '30 A$="x:DATA 5', '40   DATA 6', "50 '  DATA 7", '60 READ A:PRINT A:READ B'],
+     b'DATA 3\r\n 6 \r\nOut of DATA in 60' + E),
     ('read-in-subroutine-and-loop', ['10 FOR I%=1 TO 3:GOSUB 100:NEXT:END', '20 DATA 1,2', '100 READ A:PRINT A;:RETURN', '110 DATA 3'],
      b' 1  2  3 '),
 ]
